@@ -342,15 +342,16 @@ PROPS['C12'] = {
 
 PROPS['C07'] = {
     'title': 'Euclidean distance is the true minimum distance',
-    'level': 'model_checking',
-    'verus': [],
+    'level': 'proof',
+    'verus': ['c07_branches'],
     'kani_extra': ['--no-memory-safety-checks', '--no-overflow-checks', '--no-assertion-reach-checks'],
     'kani': [
         ('geo', 'c07.rs', r'^c07_k_(point_point_row|line_string_contains_point_axis)$', 'bounded', 'quick'),
         ('geo', 'c02.rs', r'^c02_k_(line_coord|line_line)$', 'complete', 'quick'),
         ('geo', 'c07.rs', r'^c07_k_point_axis_line$', 'bounded', 'thorough'),
     ],
-    'trusted': ['very partial: exact distance, zero-iff-equal and operand-order / typing invariance for points on one lattice row (quick) and point x axis-parallel segment (thorough), with f64::hypot modelled exactly on axis-parallel arguments',
+    'trusted': ['Verus unit c07_branches: which candidate set Polygon x Polygon distance minimises over (0 when they intersect; the hole rings when one operand sits inside the other\'s shell -- both mirror images; shell to shell otherwise) for any number of holes, with the leaf kernels (intersects, strictly-inside-ring, ring-to-ring nearest-neighbour distance, scalar min / max_value) abstract',
+                'very partial otherwise: exact distance, zero-iff-equal and operand-order / typing invariance for points on one lattice row (quick) and point x axis-parallel segment (thorough), with f64::hypot modelled exactly on axis-parallel arguments',
                 'the "exactly zero precisely when the geometries intersect" clause rests on the `intersects` early-outs of the distance impls: the segment kernels they call (Line x Coord, Line x Line) are decided completely on the lattice by the C02 harnesses listed here'],
     'undecided_clauses': [
         'numeric minimality within rounding tolerance (float error analysis; sqrt makes every distance symbolic for SAT: general-position harnesses time out at 900 s)',
